@@ -157,6 +157,7 @@ class SqlImpl(TableImpl):
     def build_select(cls, nd: AstNode, *, final_select: list[Col] | None = None) -> sqa.Select:
         if final_select is None:
             final_select = Cache.from_ast(nd).selected_cols()
+        apply_verb_order_to_window_fns(nd)
         create_aliases(nd, {})
         nd, query, sqa_expr = cls.compile_ast(nd, {col._uuid: 1 for col in final_select})
         return cls.compile_query(nd, query, sqa_expr)
@@ -693,6 +694,39 @@ def dedup_order_by(
             occurred.add(peeled)
 
     return new_order_by
+
+
+def apply_verb_order_to_window_fns(nd: AstNode) -> list[Order]:
+    """
+    Window functions without `arrange=` see the rows in the order established by
+    preceding `arrange` verbs (as on polars). In SQL, `OVER ()` knows nothing about
+    the ORDER BY of the query, so that order is written into the window functions.
+    Returns the order in force after `nd`.
+    """
+
+    if not isinstance(nd, verbs.Verb):
+        return []
+
+    order = apply_verb_order_to_window_fns(nd.child)
+    if isinstance(nd, verbs.Join | verbs.Union):
+        apply_verb_order_to_window_fns(nd.right)
+        return []
+    if isinstance(nd, verbs.Arrange):
+        return nd.order_by + order
+    if isinstance(nd, verbs.Summarize | verbs.SubqueryMarker):
+        return []
+
+    if order and isinstance(nd, verbs.Mutate):
+        for node in nd.iter_col_nodes():
+            if (
+                isinstance(node, ColFn)
+                and node.op.ftype == Ftype.WINDOW
+                and not node.context_kwargs.get("arrange")
+                and any(kwarg.name == "arrange" for kwarg in node.op.context_kwargs)
+            ):
+                node.context_kwargs["arrange"] = [dataclasses.replace(ord) for ord in order]
+
+    return order
 
 
 # Gives any leaf a unique alias to allow self-joins. We do this here to not force
